@@ -537,7 +537,7 @@ class Sandbox:
         self._module_overrides['__builtins__'] = builtins
         # Handle allowing *actual* printing to the real stdout console
         if self._module_overrides['__builtins__'].get('print') is not True:
-            self._current_stdout.append(io.StringIO())
+            self._current_stdout.append(mocked.CapturingStringIO())
         else:
             self._current_stdout.append(PrintingStringIO())
         # And do the patches
